@@ -124,7 +124,9 @@ class BodyGen:
             return g_plain(r)
         if k == 3:
             self.feat.add("var")
-            return r.choice(["$x", "$1", "$@", "$#", "$?", "$$", "${x}", "${#x}", "${x[@]}", "${!x}", "$_a", "${x:1:2}"])
+            return r.choice(["$x", "$1", "$@", "$#", "$?", "$$", "${x}", "${#x}", "${x[@]}", "${!x}", "$_a", "${x:1:2}",
+                             "${$}", "${?}", "${#}", "${!}", "${@}", "${*}", "${-}", "${0}", "${10}", "${#x[@]}", "${x[0]}",
+                             "${x:-$$}", "${x:-${$}}", "$!", "$-", "$*"])
         if k == 4:
             self.feat.add("pe-op")
             return "${x" + r.choice([":-", ":+", "-", "%", "%%", "#", "##", "/", "//", ":="]) + self.pe_word(d, indq) + "}"
@@ -871,6 +873,92 @@ def lex_case(c):
     return clist(ds, "def")
 
 
+
+# ------------------------------------------------------------------------------- expansion x context matrix (fixed corpus)
+# Every expansion form without brace/quote characters of its own, in every position a function body can
+# hold it (which decides WHICH walker of the scanner sees it and with which end character).  The body goes
+# on after the probe with an assignment and a command, and two more definitions follow the function, so
+# that a walker that returns one character early/late shows up as (a) a function that is not removed
+# whole, (b) an assignment inside the body that is removed by a variable filter, (c) damaged followers.
+MATRIX_EXP = [
+    "$$", "$?", "$#", "$!", "$@", "$*", "$-", "$0", "$1", "$_", "$x", "$x$y",
+    "${$}", "${?}", "${#}", "${!}", "${@}", "${*}", "${-}", "${0}", "${1}", "${10}", "${_}",
+    "${x}", "${#x}", "${!x}", "${x[0]}", "${x[@]}", "${#x[@]}", "${!x[@]}", "${x[$i]}",
+    "${x:-a}", "${x:+a}", "${x:=a}", "${x:?a}", "${x-}", "${x%a}", "${x%%a*}", "${x#a}", "${x##*a}",
+    "${x/a/b}", "${x//a/b}", "${x/#a/b}", "${x:1}", "${x:1:2}", "${x: -1}", "${x^}", "${x^^}", "${x,,}", "${x@Q}",
+    "${x:-$y}", "${x:-${y}}", "${x:-$$}", "${x:-${$}}", "${x:-${?}}", "${x%$y}", "${x/$y/${z}}", "${!x*}",
+    "$((1+2))", "$(($$))", "$((${$}+1))", "$((x<<2))", "$(( (1+2)*3 ))",
+    "$(echo a)", "$(echo $$)", "$(echo ${$})", "$(echo \"${$}\")", "$($x)",
+]
+MATRIX_CTX = [
+    ("word", "echo @E@ a@E@"),
+    ("brace", "{ echo @E@; echo b; }"),
+    ("brace2", "{ { echo @E@; }; echo b; }"),
+    ("paren", "( echo @E@; echo b )"),
+    ("paren-brace", "( { echo @E@; } )"),
+    ("dq", "echo \"a @E@ b\""),
+    ("dq-brace", "{ echo \"a @E@ b\"; }"),
+    ("cmdsub", "echo $(echo @E@)"),
+    ("cmdsub-brace", "{ echo $(echo @E@); }"),
+    ("cond", "[[ -n @E@ ]]"),
+    ("cond-brace", "{ [[ @E@ == a ]]; }"),
+    ("case", "case @E@ in a) echo 1;; esac"),
+    ("case-brace", "{ case a in a) echo @E@;; esac; }"),
+    ("local", "local w=@E@"),
+    ("local-brace", "{ local w=@E@; }"),
+    ("assign", "w=@E@"),
+    ("assign-brace", "{ w=@E@; }"),
+    ("array", "arr=(@E@ b)"),
+    ("array-brace", "{ arr=(@E@); }"),
+    ("if-brace", "{ if true; then echo @E@; fi; }"),
+    ("for", "for i in @E@; do :; done"),
+    ("redir-brace", "{ echo a > \"$T\"/f.@E@; }"),
+]
+MATRIX_DRIVER = r"""
+n=$1; d=$2
+for ((i=0; i<n; i++)); do
+  source "$d/m$i.sh" 2>/dev/null
+  echo "@@FUNC mf$i"
+  declare -f mf$i
+done > "$d/mout" 2>/dev/null
+"""
+
+
+def matrix_cases(chk):
+    """Returns the Case list of the matrix (bash-printed); cell names in c.feat."""
+    d = tempfile.mkdtemp(prefix="c34m_", dir=str(chk.scratch))
+    cells = [(e, cn, ct) for e in MATRIX_EXP for cn, ct in MATRIX_CTX]
+    for i, (e, cn, ct) in enumerate(cells):
+        with open(f"{d}/m{i}.sh", "w") as f:
+            f.write(f"mf{i}() {{ {ct.replace('@E@', e)}; v=1; echo tail; }}\n")
+    with open(f"{d}/driver.sh", "w") as f:
+        f.write(MATRIX_DRIVER)
+    try:
+        subprocess.run(BASH + [f"{d}/driver.sh", str(len(cells)), d], stdin=subprocess.DEVNULL,
+                       stdout=subprocess.DEVNULL, stderr=subprocess.DEVNULL, timeout=300)
+        out = open(f"{d}/mout", encoding="latin-1").read()
+    except (OSError, subprocess.TimeoutExpired):
+        out = ""
+    shutil.rmtree(d, ignore_errors=True)
+    parts = re.split(r"^@@FUNC (\S+)\n", out, flags=re.M)
+    got = {parts[j]: parts[j + 1] for j in range(1, len(parts) - 1, 2)}
+    cases = []
+    for i, (e, cn, ct) in enumerate(cells):
+        t = got.get(f"mf{i}")
+        if not t:
+            continue                      # not valid bash in this position
+        for cfg in (0, 1):
+            c = Case()
+            c.chunks = [("v", "A", "A=0\n"), ("f", f"mf{i}", t), ("v", "Z", "Z=1\n"), ("f", "g", "g () \n{ \n    :\n}\n")]
+            c.feat, c.trig = {"matrix", "ctx-" + cn}, {}
+            if cfg == 0:
+                c.vars, c.funcs, c.vwl, c.fwl = [], [f"mf{i}"], False, False       # the function must go, whole
+            else:
+                c.vars, c.funcs, c.vwl, c.fwl = ["v", "w", "arr", "Z"], ["g"], False, False   # its body must stay intact
+            cases.append(c)
+    return cases
+
+
 # ------------------------------------------------------------------------------- raw stream
 SNIPPETS = [
     "function foo() {:;}", "functionfoo() {:;}", "foo() {\n    :\n}\n\nbar() {\n    :\n}\n",
@@ -885,7 +973,8 @@ SNIPPETS = [
     "FOO=$'a\\'b' BAR=2\n", "x=`echo \\`a\\``\n", "f() { echo ${x%\\}}; }\ng=1\n", "f() { echo \"${x//'}'/y}\"; }\ng=1\n",
     "a=${b", "a=$", "a='", "a=\"", "a=(", "f() {", "f() { $(", "f() { ${", "a=$'", "a=\\", "<<", "x <<", "x <<E", "x << 'E", "#", " #", "a#",
     "function f", "function", "f()", "f() \n", "=x", "a-b=1\n", "a=b;c=d\n", "a=1\x00b=2\n", "", "\n", "cat <<''\nx\n\n", "cat <<E\nE", "cat <<E\nE\n",
-    "f() { cat <<E\n  E\nE\n}\n", "f() { `#c\n`; }\n", "x=`# c`\ny=2\n", "f() {\n x;}\ny=1\n", "f() {\n x; }; y=1\n", "f() { a\n}#\ny=1\n",
+    "f() { cat <<E\n  E\nE\n}\n", "f () \n{ \n    { \n        echo ${$};\n        x=1\n    };\n    y=2\n}\nz=3\n",
+    "f() { { echo ${?} ${#} ${!}; }; a=1; }\nb=2\n", "a=${$}\nb=2\n", "f() { echo \"${$}\" ${$$}; }\n", "f() { ( echo ${$} ); { echo $$; }; }\nq=1\n", "f() { `#c\n`; }\n", "x=`# c`\ny=2\n", "f() {\n x;}\ny=1\n", "f() {\n x; }; y=1\n", "f() { a\n}#\ny=1\n",
 ]
 SOUP = " \t\n'\"$`\\{}()#;=<-ab_f0\x00"
 
@@ -1007,7 +1096,7 @@ def main(chk: Check):
         return 3 * q if chk.fingerprint_changed else q
 
     # ---- dump stream
-    cases = build_cases(chk, budget(90, 400), depth=2 if not chk.thorough else 3)
+    cases = build_cases(chk, budget(70, 400), depth=2 if not chk.thorough else 3)
     hc = Case()       # the one fixed case of the hang class (costs its 2 s alarm once per run)
     hc.chunks, hc.feat, hc.trig = [("f", "f", "f () \n{ \n    cat <<''\nx\n\n}\n"), ("v", "Z", "Z=1\n")], {"heredoc-empty-delim"}, {}
     hc.vars, hc.funcs, hc.vwl, hc.fwl = [], ["f"], False, False
@@ -1040,7 +1129,20 @@ def main(chk: Check):
     for c in corpus:
         c.data = "".join(t for _, _, t in c.chunks)
         c.impl = run_impl(c.data, c.vars, c.funcs, c.vwl, c.fwl)
-    cases = corpus + cases
+    # the expansion x context matrix: every cell is judged textually (B1) on every run; a sample of the
+    # cells (and every failing one) also goes through the model (A), the Coq spec and the bash oracle
+    mcases = matrix_cases(chk)
+    for c in mcases:
+        c.data = "".join(t for _, _, t in c.chunks)
+        c.impl = run_impl(c.data, c.vars, c.funcs, c.vwl, c.fwl)
+        chk.nontrivial(("m", c.chunks[1][2], tuple(c.funcs)))
+    chk.count("matrix", len(mcases))
+    chk.cov["matrix_cells"] = len(mcases) // 2
+    mbad = [c for c in mcases if c.impl != expected_text(c)]
+    chk.cov["matrix_failing"] = len(mbad)
+    msel = rng.sample(mcases, min(len(mcases), budget(50, 600)))
+    bad_ids = set(id(c) for c in mbad[:20])
+    cases = corpus + mbad[:20] + [c for c in msel if id(c) not in bad_ids] + cases
     cases.append(hc)
     chk.count("dump", len(cases))
     chk.cov["features"] = dict(sorted(feats.items()))
@@ -1082,7 +1184,7 @@ def main(chk: Check):
     b1_py = [i for i, c in enumerate(cases) if c.impl != expected_text(c)]
 
     # ---- B2: bash oracle on a sample plus every textual failure
-    nb2 = budget(40, 200)
+    nb2 = budget(25, 200)
     sel = sorted(set(range(min(nb2, len(cases)))) | set(b1_py[:60]))
     b2s = bash_oracle(chk, [cases[i] for i in sel])
     b2 = {sel[k]: v for k, v in b2s.items()}
@@ -1112,7 +1214,7 @@ def main(chk: Check):
     #      stream lies inside the proved grammar (def_ok)
     if ok:
         rcases = []
-        for c in cases[: budget(30, 200)]:
+        for c in [x for x in cases if "matrix" not in x.feat][: budget(20, 200)]:
             if c is hc or isinstance(c.impl, Err):
                 continue
             term = lex_case(c)
